@@ -64,6 +64,9 @@ SCENARIOS = [
     {"version": [3, 3], "flavour": "cert", "skey": "dsa", "dsa": True},
     {"version": [3, 4], "flavour": "cert", "skey": "ecdsa", "hrr": True,
      "sset_extra": {"ticketKeys": ["33" * 32], "ticket_count": 2}},
+    # the server asks for a certificate, the client has none
+    {"version": [3, 3], "flavour": "cert", "skey": "rsa", "req_cert": True},
+    {"version": [3, 0], "flavour": "cert", "skey": "rsa", "req_cert": True},
 ]
 FLAGS = [(True, False), (True, True), (False, False), (False, True)]
 # (closeSocket, ignoreAbruptClose)
